@@ -3,6 +3,12 @@ import Dmn.Lemmas.PlaneNoPanic
 import Dmn.Lemmas.PlaneMerged
 import Dmn.Lemmas.CanvasPlane
 import Dmn.Lemmas.CanvasContent
+import Dmn.Lemmas.CanvasStages
+import Dmn.Lemmas.CanvasSearch
+import Dmn.Lemmas.CanvasText
+import Dmn.Lemmas.RenderAt
+import Dmn.Lemmas.CanvasFits
+import Dmn.Lemmas.CanvasSamples
 
 /-!
 # C19 — a decision table drawn as text is recognised exactly as drawn
@@ -26,31 +32,6 @@ namespace Dmn.Recog
 open Outcome (ok error)
 
 /-! ## Sample tables used by the non-vacuity examples and counterexamples -/
-
-/-- two inputs with allowed values, two named outputs with allowed values and a label, one
-annotation, two rules, information item name -/
-def sampleTable (o : Orientation) : TableSpec :=
-  { orientation := o, hitPolicy := .collect .sum, infoName := some " name ".toList,
-    inputs := [⟨" a ".toList, some " 1,2 ".toList⟩, ⟨" b ".toList, some " 3 ".toList⟩],
-    outputs := [⟨some " o1 ".toList, some " 5 ".toList⟩, ⟨some " o2 ".toList, some " 6 ".toList⟩],
-    label := some " lab ".toList, annotations := [" an ".toList],
-    rules := [⟨[" <1".toList, " x ".toList], [" 1 ".toList, " 2 ".toList], [" r1 ".toList]⟩,
-              ⟨[" <2".toList, " y ".toList], [" 3 ".toList, " 4 ".toList], [" r2 ".toList]⟩] }
-
-def sampleDecor (split : Bool) : Decor :=
-  { hp := " C+ ".toList, ruleNos := [" 1 ".toList, "2".toList], split := split,
-    hpBlank := "  ".toList, annBlanks := ["   ".toList], merge := false,
-    inBlanks := ["   ".toList, " ".toList], outBlanks := ["  ".toList, "  ".toList] }
-
-/-- the simplest table: one input, one output, one rule -/
-def tinyTable (o : Orientation) (expr : String) : TableSpec :=
-  { orientation := o, hitPolicy := .unique, infoName := none,
-    inputs := [⟨expr.toList, none⟩], outputs := [⟨none, none⟩], label := some " out ".toList,
-    annotations := [], rules := [⟨[" - ".toList], [" 1 ".toList], []⟩] }
-
-def tinyDecor : Decor :=
-  { hp := " U ".toList, ruleNos := [" 1 ".toList], split := false, hpBlank := [], annBlanks := [],
-    merge := false }
 
 /-- non-vacuity of the hypotheses on the decoration: the sample decoration is a decoration
 of the sample table (the marker cell reads `C+`, the rule number cells read 1 and 2) -/
@@ -534,10 +515,27 @@ below, by the correspondence on every generated drawing (the driver evaluates
 `scanInvertsDraw` for each, `harness/src/c19.rs` family `scanner`), and the real scanner is
 compared with the scanner model on every text.  `recognize_text_roundtrip_partial` proves the
 rest: given that one obligation, the text-level round trip holds for tables of any size.
-Of `scan_inverts_draw` itself the first stage is proved for every drawing
-(`canvas_content_of_drawing`: text → canvas content loses nothing); the stages from the text
-layer to the plane (crossings, body rectangle, thin / body / grid layers, regions, cells) are
-the part that is modelled, panic-free and tested, but whose inversion is not proved.
+Of `scan_inverts_draw` itself the first stage is proved for every table, layout and text
+(`draw_yields_drawing_lines`, `canvas_content_of_draw`: text → canvas content loses nothing, and
+`draw` always yields lines the scanner takes whole); the later stages are named, each with its
+written-out expectation (Model/CanvasStages.lean: `stageMarks`, `stageRegions`, `stagePlane`), and
+`recognize_text_roundtrip_stages` is the round trip relative to exactly these three.  Stage (2) —
+on the canvas of the drawing the information item name, the crossings and the body rectangle are
+`expectedMarks` — is PROVED for every table and layout under `Fits` (`scan_marks_of_drawing`), and
+`recognize_text_roundtrip_regions_plane` is the round trip relative to `Fits` and the last two
+stages.  STILL ASSUMED (decidable, evaluated per generated table, not proved for all):
+(3) the thin / body / grid layers are computed and the regions of the thin layer are the
+information item box and one rectangle per cell (`expectedRegions`); (4) the cells built from
+the grid layer are `planeDrawn`.  Proved towards them, for ANY content: what the searches find
+(`search_finds_first_in_reading_order`, the four directed searches in Lemmas/CanvasSearch.lean) and
+that the walk around a closed box returns the box (`walk_returns_the_box`,
+`region_of_closed_box`, `grid_rectangle_of_closed_box`).  Also proved: where `render` puts every line
+and character (`render_lines_and_characters`), what the text layer of the canvas of a drawn sheet
+holds at every position (Lemmas/CanvasDrawnText.lean, CanvasTop.lean), which character stands at
+which vertex of a sheet with double lines (Lemmas/CanvasVertex.lean).  Missing for (3) and (4): the
+same analysis for the single-line junctions of the thin layer (one closed box per region of the
+sheet, found in reading order), for `make_grid` (the grid layer has a closed box per grid cell) and
+for the numbering of the regions (`idsRows` / `idsCols` / `idsOfSheet` = rank in reading order).
 -/
 
 /-- **Text-level round trip, given that the scanner reads the drawing back.**  For every
@@ -564,15 +562,6 @@ theorem recognize_text_roundtrip_partial (d : Decor) (L : Layout) (t : TableSpec
   | error e => rw [hs] at hscan; cases hscan
   | panic p => rw [hs] at hscan; cases hscan
 
-/-- the layout `autoLayout` computes for a table with logical texts -/
-def laidOut (d : Decor) (t : TableSpec) : Decor × TableSpec × Layout := autoLayout d t ⟨[], [], 1, 7⟩
-
-/-- a small table with an information item name and an annotation -/
-def tinyNamed (o : Orientation) : TableSpec :=
-  { orientation := o, hitPolicy := .unique, infoName := some "nm".toList,
-    inputs := [⟨" age ".toList, none⟩], outputs := [⟨none, none⟩], label := some " out ".toList,
-    annotations := ["why".toList], rules := [⟨[" - ".toList], [" 1 ".toList], ["x".toList]⟩] }
-
 /-- non-vacuity: the hypothesis holds for the drawings of the small table in both orientations
 (information item box, hit policy, rule number, double lines towards output and annotation), so
 the text of each drawing is recognised as the table.  (The same is evaluated by the
@@ -597,9 +586,7 @@ the drawing itself in the text layer, blank in the other layers, every line comp
 `CHAR_OUTER` to the length of the longest, followed by one row of `CHAR_OUTER`: `str::lines`,
 `trim`, the start / end detection and the padding of `scan` lose nothing. -/
 theorem canvas_content_of_drawing (lines : List Text) (h : DrawingLines lines) :
-    buildContent (textOfLines lines) =
-      .ok (((rowsOf lines).push #[]).map fun row =>
-        row ++ Array.replicate (maxLen lines - row.size) (Px.fill charOuter)) :=
+    buildContent (textOfLines lines) = .ok (canvasOf lines) :=
   buildContent_drawing lines h
 
 /-- non-vacuity: the lines of the drawing of the small table (with its information item box)
@@ -608,6 +595,266 @@ example :
     let l := laidOut tinyDecor (tinyNamed .ruleAsRow)
     DrawingLines (draw l.1 l.2.2 l.2.1) :=
   ⟨by decide +kernel, by decide +kernel, by decide +kernel, by decide +kernel⟩
+
+/-! ## The stages of the scanner on a drawing (the geometric half of the round trip)
+
+`scanInvertsDraw` is cut into the stages of `canvas.rs` (Model/CanvasStages.lean), each with a
+written-out expectation in the pixel coordinates of the sheet:
+
+| stage | what | status |
+|-------|------|--------|
+| 1 content | text → canvas content = the drawing in the text layer | PROVED for every table, layout and text (`draw_yields_drawing_lines`, `canvas_content_of_draw`) |
+| 2 marks | name, crossings, body rectangle = `expectedMarks` | PROVED for every well-formed table and layout whose drawing is a legal one (`Fits`: no box-drawing character inside a text, the information item box ends over a single line): `scan_marks_of_drawing`, from `marks_of_double_grid_sheet` (any sheet with crossing double lines) |
+| 3 regions | thin / body / grid layers; regions = box + one rectangle per cell (`expectedRegions`) | assumed (`stageRegions`); the walk is proved to return every closed box (`region_of_closed_box`) |
+| 4 plane | cells from the grid layer and the regions = `planeDrawn` | assumed (`stagePlane`); `grid_rectangle_of_closed_box` |
+
+`recognize_text_roundtrip_stages` is the text-level round trip relative to stages 2–4 only.
+-/
+
+/-- **`draw` yields drawings** — for EVERY decoration, layout and well-formed table, whatever the
+texts (multi-line, blank, containing box-drawing characters or not), column widths and row
+heights, with or without the information item box: every line of `draw d L t` is non-empty,
+contains no line break, begins and ends with a box-drawing character (`str::trim` does not
+touch it), the first line begins with `┌` and no line but the last ends with `┘`. -/
+theorem draw_yields_drawing_lines (d : Decor) (L : Layout) (t : TableSpec) (hwf : t.wf = true) :
+    DrawingLines (draw d L t) := by
+  have hw := (TableSpec.wf_iff t).mp hwf
+  exact drawingLines_draw d L t (List.length_pos_iff.mp hw.inputs_pos)
+    (List.length_pos_iff.mp hw.rules_pos)
+
+/-- **Stage 1, unconditionally.**  For every decoration, layout and well-formed table the canvas
+content the scanner builds from the text of the drawing is the drawing itself in the text layer
+(`canvasOf`): no hypothesis on the texts or the layout is left. -/
+theorem canvas_content_of_draw (d : Decor) (L : Layout) (t : TableSpec) (hwf : t.wf = true) :
+    buildContent (drawText d L t) = .ok (canvasOf (draw d L t)) :=
+  canvas_content_of_drawing _ (draw_yields_drawing_lines d L t hwf)
+
+/-- **`search` finds the first occurrence in reading order** — on any rectangular content, any
+layer, any set of searched characters: if `(xt, yt)` holds a searched character, no position to
+its left in the same row and no position in a row above does, then `search` from the origin
+returns exactly that character and position (the top left corner `┌`, the crossing `╬`). -/
+theorem search_finds_first_in_reading_order {c : Content} {R W : Nat} (h : Shape c R W) (l : Layer)
+    (s : List Char) (xt yt : Nat) (hyt : yt < R) (hxt : xt < W)
+    (hs : s.contains (chOf c l yt xt) = true)
+    (hrow : ∀ x', x' < xt → s.contains (chOf c l yt x') = false)
+    (habove : ∀ y' x', y' < yt → x' < W → s.contains (chOf c l y' x') = false) :
+    search c ⟨0, 0⟩ l s = .ok (chOf c l yt xt, ⟨xt, yt⟩) :=
+  search_first h l s xt yt hyt hxt hs hrow habove
+
+/-- non-vacuity: the first `┐` of the box is found -/
+example : search boxContent ⟨0, 0⟩ .text ['┐'] = .ok ('┐', ⟨2, 0⟩) := by
+  refine search_finds_first_in_reading_order boxContent_shape .text ['┐'] 2 0 (by omega) (by omega)
+    (by decide) ?_ ?_
+  · intro x' hx
+    have : x' = 0 ∨ x' = 1 := by omega
+    rcases this with rfl | rfl <;> decide
+  · intro y' x' hy; omega
+
+/-- **The walk around a rectangle returns the rectangle** — on any rectangular content and layer,
+for the searched / allowed characters of any user of the walk (`recognize_region`,
+`recognize_rectangle`, the information item box): if the four corners hold searched characters
+and the sides between them only characters the searches step over (`BoxOn`), the walk from the
+top left corner returns `Rect (l, t, r + 1, b + 1)`. -/
+theorem walk_returns_the_box {c : Content} {R W : Nat} (h : Shape c R W) {layer : Layer}
+    {l t r b : Nat} {sr ar sd ad sl al su au : List Char}
+    (hlr : l < r) (hr : r < W) (htb : t < b) (hb : b < R)
+    (box : BoxOn c layer l t r b sr ar sd ad sl al su au) :
+    walkRectangle c layer ⟨l, t⟩ sr ar sd ad sl al su au = .ok ⟨l, t, r + 1, b + 1⟩ :=
+  walkRectangle_box h hlr hr htb hb box
+
+/-- **Every closed box of the thin layer is recognised as the region with its coordinates**
+(`recognize_region`, canvas.rs:378): corners `┌ ├ ┬ ┼` / `┐ ┤ ┬ ┼` / `┘ ┤ ┴ ┼` / `└ ├ ┴ ┼`, on
+the sides only lines and junctions that point outwards (`─ ┴` above, `│ ├` right, `─ ┬` below,
+`│ ┤` left). -/
+theorem region_of_closed_box {c : Content} {R W : Nat} (h : Shape c R W) {layer : Layer}
+    {l t r b : Nat} (hlr : l < r) (hr : r < W) (htb : t < b) (hb : b < R)
+    (box : RegionBox c layer l t r b) :
+    recognizeRegion c layer ⟨l, t⟩ = .ok ⟨l, t, r + 1, b + 1⟩ :=
+  recognizeRegion_box h hlr hr htb hb box
+
+/-- **Every closed cell of the grid layer is recognised as the rectangle with its coordinates**
+(`recognize_rectangle`, canvas.rs:396): only `─` / `│` between the junctions. -/
+theorem grid_rectangle_of_closed_box {c : Content} {R W : Nat} (h : Shape c R W) {layer : Layer}
+    {l t r b : Nat} (hlr : l < r) (hr : r < W) (htb : t < b) (hb : b < R)
+    (box : GridBox c layer l t r b) :
+    recognizeRectangle c layer ⟨l, t⟩ = .ok ⟨l, t, r + 1, b + 1⟩ :=
+  recognizeRectangle_box h hlr hr htb hb box
+
+/-- non-vacuity: the box of `boxContent` is a region and a grid rectangle -/
+example : recognizeRegion boxContent .thin ⟨0, 0⟩ = .ok ⟨0, 0, 3, 3⟩ ∧
+    recognizeRectangle boxContent .grid ⟨0, 0⟩ = .ok ⟨0, 0, 3, 3⟩ ∧
+    walkRectangle boxContent .thin ⟨0, 0⟩ cornersTopRight ['─', '┴'] cornersBottomRight ['│', '├']
+      cornersBottomLeft ['─', '┬'] cornersTopLeft ['│', '┤'] = .ok ⟨0, 0, 3, 3⟩ :=
+  ⟨region_of_closed_box boxContent_shape (by omega) (by omega) (by omega) (by omega)
+      (boxContent_box .thin).1,
+   grid_rectangle_of_closed_box boxContent_shape (by omega) (by omega) (by omega) (by omega)
+      (boxContent_box .grid).2,
+   walk_returns_the_box boxContent_shape (by omega) (by omega) (by omega) (by omega)
+      (boxContent_box .thin).1⟩
+
+/-- **`text_from_rect` cuts out the interior** — on any rectangular content and layer: the text
+of the rectangle with corners `(l, t)` and `(r, b)` (as the walk returns it) is the characters
+strictly inside it, row by row; rows are joined by line breaks (`textRows`; for an interior at
+least one column wide that is `joinLines`, `textRows_nonempty`), nothing is trimmed — a cell's
+text is recognised exactly as drawn, blanks and line structure included. -/
+theorem text_from_rect_cuts_interior {c : Content} {R W : Nat} (h : Shape c R W) (layer : Layer)
+    {l t r b : Nat} (hlr : l < r) (hr : r < W) (htb : t < b) (hb : b < R) :
+    textFromRect c layer ⟨l, t, r + 1, b + 1⟩ = .ok (textRows (interior c layer l t r b) false) :=
+  textFromRect_interior h layer hlr hr htb hb
+
+/-- non-vacuity: the text of the box of `boxContent` is its one interior character -/
+example : textFromRect boxContent .text ⟨0, 0, 3, 3⟩ = .ok ['x'] := by
+  rw [text_from_rect_cuts_interior boxContent_shape .text (by omega) (by omega) (by omega) (by omega)]
+  decide
+
+/-- **Where the lines and characters of a rendered sheet are** — for every sheet (any keys,
+texts, widths, heights): boundary row `br` is line `yPos br` and text line `l` of grid row `r`
+is line `yPos r + 1 + l`; in a border line the vertex of boundary column `bc` is at `xPos bc` and
+the segment over grid column `c` occupies `xPos c + 1 …`; in a text line the separator of
+boundary column `c` is at `xPos c` and the cell's characters follow; conversely every line and
+every position is one of these (`Sheet.render_locate`, `Sheet.line_locate`).  This ties the
+pixel coordinates used by the stage expectations (`expectedMarks`, `expectedRegions`) to `render`. -/
+theorem render_lines_and_characters (s : Sheet) :
+    s.render.length = s.yPos s.nrows + 1 ∧
+    (∀ br, br ≤ s.nrows → s.render[s.yPos br]? = some (s.borderLine br)) ∧
+    (∀ r l, r < s.nrows → l < s.h r → s.render[s.yPos r + (1 + l)]? = some (s.textLine r l)) ∧
+    (∀ br bc, bc ≤ s.ncols → (s.borderLine br)[s.xPos bc]? = (s.vertex br bc)[0]?) ∧
+    (∀ br c i, c < s.ncols → i < s.w c → s.hSeg br c = true →
+      (s.borderLine br)[s.xPos c + (1 + i)]? = some (if s.hDbl br then '═' else '─')) ∧
+    (∀ r l c, c ≤ s.ncols → (c = s.ncols ∨ s.vSeg r c = true) →
+      (s.textLine r l)[s.xPos c]? = some (if s.vDbl c then '║' else '│')) ∧
+    (∀ r l c i, c < s.ncols → i < s.w c → (s.textLine r l)[s.xPos c + (1 + i)]? =
+      (slice (s.linesAt r c) (s.yOff r c + l) (s.xOff r c) (s.w c))[i]?) := by
+  refine ⟨s.render_length, s.render_border, s.render_text, s.borderLine_vertex, ?_, ?_, s.textLine_cell⟩
+  · intro br c i hc hi hseg
+    rw [s.borderLine_seg br c i hc hi, if_pos hseg]
+  · intro r l c hc hv
+    rw [s.textLine_sep r l c hc]
+    rcases hv with rfl | hv
+    · rw [if_pos rfl]
+    · split
+      · rename_i h; rw [h]
+      · first | rfl | rw [if_pos hv]
+
+/-- **The stages compose to the scanner**: content, marks, layers, regions, plane. -/
+theorem scan_stages_compose {text : Text} {c c' : Content} {m : Marks} {regs : List Rect}
+    {rows : List (List SCell)} (h1 : buildContent text = .ok c) (h2 : scanMarks c = .ok m)
+    (h3 : scanLayers c m.bodyRect = .ok c') (h4 : recognizeRegions c' = .ok regs)
+    (h5 : planeWith (m.canvas c') regs = .ok rows) : scanText text = .ok ⟨m.name, rows⟩ :=
+  scanText_of_stages h1 h2 h3 h4 h5
+
+/-- **The hypothesis of the text-level round trip shrinks to the later stages**: for every
+well-formed table and layout, `scanInvertsDraw` follows from stages 2–4 (`laterStages`: marks,
+regions, plane, each against its written-out expectation); stage 1 is proved. -/
+theorem scan_inverts_draw_of_later_stages (d : Decor) (L : Layout) (t : TableSpec)
+    (hwf : t.wf = true) (h : laterStages d L t = true) : scanInvertsDraw d L t = true := by
+  have hw := (TableSpec.wf_iff t).mp hwf
+  exact scanInvertsDraw_of_stages d L t (List.length_pos_iff.mp hw.inputs_pos)
+    (List.length_pos_iff.mp hw.rules_pos) h
+
+/-- **Text-level round trip relative to the stages not yet proved.**  For every well-formed table
+(any size, both orientations, every hit policy and combination of optional parts, merged input
+entries or not) and every layout: if on the canvas of the drawing (a) the marks are found where
+the sheet has them (`stageMarks`), (b) the regions of the thin layer are the information item box
+and one rectangle per cell of the sheet (`stageRegions`), (c) the cells built from the grid layer
+are the plane the drawing denotes (`stagePlane`), then recognising the TEXT of the drawing returns
+exactly the table.  Nothing is assumed about text → lines → canvas content any more. -/
+theorem recognize_text_roundtrip_stages (d : Decor) (L : Layout) (t : TableSpec)
+    (hwf : t.wf = true) (hd : d.Ok t) (hm : stageMarks d L t = true)
+    (hr : stageRegions d L t = true) (hp : stagePlane d L t = true) :
+    recognizeText (drawText d L t) = .ok t :=
+  recognize_text_roundtrip_partial d L t hwf hd
+    (scan_inverts_draw_of_later_stages d L t hwf (by simp [laterStages, hm, hr, hp]))
+
+/-- **Stage 2 on any sheet with crossing double lines.**  For EVERY sheet (any keys, texts,
+widths, heights) that has a double boundary column `bc0` and a double boundary row `br0` drawn
+from border to border, optionally a second double column to the right or a second double row
+below (`DoubleGrid`), drawn legally (`SheetFits`), with or without an information item box: the
+scanner's `recognize_information_item_name`, `recognize_crossings` and `recognize_body_rect`
+find — the name as drawn (line by line, blanks included); the crossing where the main double
+lines meet (the first `╬` in reading order), the second crossing to the right of it exactly when
+there is a second double column with full crossings between (`═ ╪` only), the one below it
+exactly when there is a second double row; and as body rectangle the whole sheet (up to `╥`, down
+to `╨`, left to `╞`, right to `╡`). -/
+theorem marks_of_double_grid_sheet {s : Sheet} {name : Option Text} {boxRight : Nat} {bc0 br0 : Nat}
+    {bc1 br1 : Option Nat} (hf : SheetFits s name boxRight) (g : DoubleGrid s bc0 br0 bc1 br1) :
+    scanMarks (sheetCanvas s name boxRight) =
+      .ok ⟨name.map (fun nm => joinLines ((splitLines nm).map (padTo (boxRight - 1)))),
+        ⟨s.xPos bc0, boxLines name + s.yPos br0⟩,
+        bc1.map (fun b => ⟨s.xPos b, boxLines name + s.yPos br0⟩),
+        br1.map (fun b => ⟨s.xPos bc0, boxLines name + s.yPos b⟩),
+        ⟨0, boxLines name, s.xPos s.ncols + 1, boxLines name + s.yPos s.nrows + 1⟩⟩ :=
+  scanMarks_sheet hf g
+
+/-- **Stage 2 for every table.**  For every well-formed table — any number of inputs, outputs,
+annotations and rules, both orientations, every combination of optional parts, merged input
+entries or not — and every layout whose drawing is a legal one (`Fits`): on the canvas of the
+drawing the scanner finds the information item name, the crossings and the body rectangle exactly
+where the sheet has them (`expectedMarks`). -/
+theorem scan_marks_of_drawing (d : Decor) (L : Layout) (t : TableSpec) (hwf : t.wf = true)
+    (hf : Fits d L t) : scanMarks (canvasOf (draw d L t)) = .ok (expectedMarks d L t) := by
+  have hw := (TableSpec.wf_iff t).mp hwf
+  exact scanMarks_draw d L t hw.orient hw.inputs_pos hw.outputs_pos hw.rules_pos hf
+
+/-- non-vacuity: the drawings of the small table (information item box, annotation double line)
+are legal drawings in both orientations (`sample_fits`, evaluated in Lemmas/CanvasSamples.lean) -/
+example :
+    (let l := laidOut tinyDecor (tinyNamed .ruleAsRow); Fits l.1 l.2.2 l.2.1) ∧
+    (let l := laidOut tinyDecor (tinyNamed .ruleAsColumn); Fits l.1 l.2.2 l.2.1) :=
+  ⟨fits_of_fitsB _ _ _ sample_fits.1, fits_of_fitsB _ _ _ sample_fits.2.1⟩
+
+/-- the hypothesis is needed: a `║` inside an input entry is a line to the scanner (the format
+has no escape), the drawing is not a legal one -/
+example :
+    let t := { tinyNamed .ruleAsRow with rules := [⟨[" ║ ".toList], [" 1 ".toList], ["x".toList]⟩] }
+    let l := laidOut tinyDecor t
+    fitsB l.1 l.2.2 l.2.1 = false := sample_not_fits
+
+/-- **Text-level round trip relative to the two stages not yet proved.**  For every well-formed
+table and every layout whose drawing is a legal one (`Fits`): if (b) the regions the scanner
+finds in the thin layer are the information item box and one rectangle per cell of the sheet
+(`stageRegions`) and (c) the cells built from the grid layer are the plane the drawing denotes
+(`stagePlane`), then recognising the TEXT of the drawing returns exactly the table.  Text → canvas
+content and the marks (name, crossings, body rectangle) are proved. -/
+theorem recognize_text_roundtrip_regions_plane (d : Decor) (L : Layout) (t : TableSpec)
+    (hwf : t.wf = true) (hd : d.Ok t) (hf : Fits d L t)
+    (hr : stageRegions d L t = true) (hp : stagePlane d L t = true) :
+    recognizeText (drawText d L t) = .ok t := by
+  have hw := (TableSpec.wf_iff t).mp hwf
+  exact recognize_text_roundtrip_stages d L t hwf hd
+    (stageMarks_of_fits d L t hw.orient hw.inputs_pos hw.outputs_pos hw.rules_pos hf) hr hp
+
+/-- non-vacuity: all hypotheses hold for the drawing of the small table -/
+example :
+    let l := laidOut tinyDecor (tinyNamed .ruleAsColumn)
+    l.2.1.wf = true ∧ fitsB l.1 l.2.2 l.2.1 = true ∧ stageRegions l.1 l.2.2 l.2.1 = true ∧
+      stagePlane l.1 l.2.2 l.2.1 = true :=
+  ⟨sample_fits.2.2, sample_fits.2.1, sample_stages_cols.2.1, sample_stages_cols.2.2⟩
+
+/-- non-vacuity: the three stage hypotheses hold for the drawings of the small table with its
+information item box and annotation, in both orientations (evaluated in
+Lemmas/CanvasSamples.lean; the driver evaluates them for every generated table) -/
+example :
+    let l := laidOut tinyDecor (tinyNamed .ruleAsRow)
+    stageMarks l.1 l.2.2 l.2.1 = true ∧ stageRegions l.1 l.2.2 l.2.1 = true ∧
+      stagePlane l.1 l.2.2 l.2.1 = true := sample_stages_rows
+
+example :
+    let l := laidOut tinyDecor (tinyNamed .ruleAsColumn)
+    stageMarks l.1 l.2.2 l.2.1 = true ∧ stageRegions l.1 l.2.2 l.2.1 = true ∧
+      stagePlane l.1 l.2.2 l.2.1 = true := sample_stages_cols
+
+/-- the expectations of the stages, written out for the small rules-as-rows table: the crossing
+`╬`, the annotation crossing to its right, the body under the two lines of the information item
+box, and the regions — the box, then one rectangle per cell in reading order
+(`sample_expectations`, Lemmas/CanvasSamples.lean) -/
+example :
+    let l := laidOut tinyDecor (tinyNamed .ruleAsRow)
+    (draw l.1 l.2.2 l.2.1).length = 7 ∧
+    expectedMarks l.1 l.2.2 l.2.1 =
+      ⟨some " nm".toList, ⟨10, 4⟩, some ⟨16, 4⟩, none, ⟨0, 2, 21, 7⟩⟩ ∧
+    (expectedRegions l.1 l.2.2 l.2.1).length = 9 :=
+  ⟨by rw [sample_expectations.1]; rfl, sample_expectations.2.1, by rw [sample_expectations.2.2]; rfl⟩
 
 /-- the scanner rejects what is not a drawing with an error (and `canvas_no_panic`: never with
 a panic): no corner, no double crossing, an open rectangle -/
